@@ -128,7 +128,12 @@ def check_fluxes(case):
     Er = AR * Tr ** 4
     mom = rho * u * u + p + Er / 3.0
     fld = P.get('problem', '').startswith('FLD')
-    if fld:
+    if kind == 'Sn':
+        # discrete-ordinates transport: the radiation pressure is f(x) E_r with the variable Eddington factor of the converged S_n iteration
+        # (f_tol = 1e-4), not E_r / 3, and f is not a public attribute: like the flux-limited closures, only the far-field balance is observable
+        # (thorough run: E_r / 3 leaves 9e-7 of the total momentum flux unbalanced inside the profile)
+        o.label('Sn-interior-momentum-not-observable')
+    elif fld:
         # flux-limited closures carry a variable Eddington factor (P_r != E_r/3) that is not a public attribute:
         # the radiation pressure inside the profile is not observable; the far-field (equilibrium) balance below still is
         o.label('FLD-interior-momentum-not-observable')
